@@ -118,9 +118,11 @@ func runeStarts(h []byte) []int {
 
 // Plan builds the C19 plan.
 func Plan(tier string) *harness.Plan {
-	t := bx.Tier{PN: 3, SK: 1, LASCII: 3, LUTF8: 2, LRaw: 0, EmbedW: 1, EmbedPN: 2, TokL: 3, TokN: 5, SeedEmbW: 1, SeedJ: []int{0, 33}, SeedEmbFirst: 400, Budget: 150 * time.Second}
+	t := bx.Tier{PN: 3, SK: 1, LASCII: 3, LUTF8: 2, LRaw: 0, EmbedW: 1, EmbedPN: 2, TokL: 3, TokN: 5, SeedEmbW: 1, SeedJ: []int{0, 33}, SeedEmbFirst: 400, SeedTokL: 4, SeedTokN: 6, Budget: 150 * time.Second}
 	if tier == "thorough" {
-		t = bx.Tier{PN: 4, SK: 2, LASCII: 3, LBig: 3, LUTF8: 2, LRaw: 0, EmbedW: 1, EmbedPN: 3, TokL: 3, TokN: 6, SeedEmbW: 1, SeedJ: []int{0, 33}, Budget: 40 * time.Minute}
+		// plus every 4-node pattern on ASCII haystacks of <= 3 symbols and the two-edit seed neighbourhoods on their
+		// token words (a superset of the quick space)
+		t.PN, t.HugePN, t.LHuge, t.SK, t.Budget = 4, 3, 3, 2, 25*time.Minute
 	}
 	sp := bx.NewSpace(t)
 	run := func(w *harness.W, u int) {
